@@ -169,6 +169,19 @@ def quadrature_table(fn_node):
                     divs.append((n.target.id, d))
             elif isinstance(n, ast.Return) and isinstance(n.value, ast.Name):
                 rets.add(n.value.id)
+            elif isinstance(n, ast.Return) and isinstance(n.value, ast.BinOp) and isinstance(n.value.op, ast.Div) and isinstance(n.value.left, ast.Name):
+                # return q / 5
+                d = fold(n.value.right)
+                if isinstance(d, Fraction):
+                    divs.append((n.value.left.id, d))
+                    rets.add(n.value.left.id)
+            if isinstance(n, ast.Assign) and len(n.targets) == 1 and isinstance(n.targets[0], ast.Name) and isinstance(n.value, ast.BinOp) \
+                    and isinstance(n.value.op, ast.Div) and isinstance(n.value.left, ast.Name):
+                # q = q / 5   |   points = q / 5 ... return points
+                d = fold(n.value.right)
+                if isinstance(d, Fraction):
+                    divs.append((n.targets[0].id, d))
+                    divs.append((n.value.left.id, d))
         good = [d for (t, d) in divs if t in rets]
         if lits and good:
             scalars, divisor = lits[0], good[0]
